@@ -476,7 +476,7 @@ theorem isUnitarySmall_H : IsUnitarySmall 1 (build 2 2 fun r c => (invSqrt2 : K)
   have g11 : (build 2 2 fun r c => (invSqrt2 : K) * (if r = 1 ∧ c = 1 then -1 else 1)).get 1 1 = -invSqrt2 := by
     simp [get_build']
   refine isUnitarySmall_two (wf_build _ _ _) rfl rfl ?_ ?_ ?_ ?_ ?_ ?_ ?_ ?_ <;>
-    simp only [g00, g01, g10, g11, conj_neg', cs] <;> linear_combination law
+    simp only [g00, g01, g10, g11, conj_neg', cs] <;> first | ring1 | linear_combination law
 
 theorem isUnitarySmall_RX {t : K} (ht : star t = t) :
     IsUnitarySmall 1 (build 2 2 fun r c => if r = c then cos t else -i * sin t) := by
@@ -578,6 +578,84 @@ theorem specMatrix_unitary {name : String} {θs : List K} {U : Mat K} (h : specM
   · exact ⟨2, isUnitarySmall_diag fun c _ => by
       split_ifs <;> [exact unit_cis (hreal _ (by simp)); exact unit_one]⟩
   · exact ⟨2, isUnitarySmall_phasedSwap (unit_cis (hreal _ (by simp)))⟩
+
+/-- **Every denotation with real parameters is unitary** (induction on the modifier stack), and leaves alone
+every qubit that is not listed. -/
+theorem denote_unitary {n : Nat} : ∀ (ms : List Modifier) (name : String) (θs : List K) (qs : List Nat) (D : Mat K),
+    (∀ q ∈ qs, q < n) → qs.Nodup → (∀ θ ∈ θs, star θ = θ) → denote n ms name θs qs = some D →
+    IsUnitary n D ∧ ∀ c, c < n → c ∉ qs → Preserves n c D := by
+  intro ms
+  induction ms with
+  | nil =>
+    intro name θs qs D hlt hnd hreal h
+    simp only [denote] at h
+    cases hs : specMatrix name θs with
+    | none => rw [hs] at h; simp at h
+    | some U =>
+      rw [hs] at h
+      simp only at h
+      by_cases hU : U.r = 2 ^ qs.length
+      · rw [if_pos hU] at h; injection h with h; subst h
+        obtain ⟨k, hk⟩ := specMatrix_unitary hs hreal
+        have : k = qs.length := Nat.pow_right_injective (le_refl 2) (by show 2 ^ k = 2 ^ qs.length; rw [← hk.2.1, hU])
+        subst this
+        exact ⟨isUnitary_liftSpec hlt hnd hk, fun c hc hnot => preserves_liftSpec hc hnot⟩
+      · rw [if_neg hU] at h; simp at h
+  | cons md ms ih =>
+    intro name θs qs D hlt hnd hreal h
+    cases md with
+    | dagger =>
+      simp only [denote] at h
+      cases h' : denote n ms name θs qs with
+      | none => rw [h'] at h; simp at h
+      | some D' =>
+        rw [h'] at h; simp only [Option.map_some] at h; injection h with h; subst h
+        obtain ⟨u, p⟩ := ih name θs qs D' hlt hnd hreal h'
+        exact ⟨u.adjoint, fun c hc hnot => preserves_adjoint u.1 (p c hc hnot)⟩
+    | controlled =>
+      cases qs with
+      | nil => simp [denote] at h
+      | cons c0 qs' =>
+        simp only [denote] at h
+        cases h' : denote n ms name θs qs' with
+        | none => rw [h'] at h; simp at h
+        | some D' =>
+          rw [h'] at h; simp only [Option.map_some] at h; injection h with h; subst h
+          have hlt' : ∀ q ∈ qs', q < n := fun q hq => hlt q (List.mem_cons_of_mem _ hq)
+          have hnd' := List.nodup_cons.mp hnd
+          obtain ⟨u, p⟩ := ih name θs qs' D' hlt' hnd'.2 hreal h'
+          have hc0 : c0 < n := hlt c0 List.mem_cons_self
+          rw [ctrlSpec_eq_forkSpec u.1.2.1 u.1.2.2]
+          refine ⟨isUnitary_forkSpec (isUnitary_eye n) u (preserves_eye n c0) (p c0 hc0 hnd'.1), ?_⟩
+          intro c hc hnot
+          exact preserves_forkSpec (sq_eye n) (preserves_eye n c)
+            (p c hc (fun hm => hnot (List.mem_cons_of_mem _ hm)))
+    | forked =>
+      cases qs with
+      | nil => simp [denote] at h
+      | cons c0 qs' =>
+        simp only [denote] at h
+        by_cases hodd : θs.length % 2 ≠ 0
+        · rw [if_pos hodd] at h; simp at h
+        · rw [if_neg hodd] at h
+          have hlt' : ∀ q ∈ qs', q < n := fun q hq => hlt q (List.mem_cons_of_mem _ hq)
+          have hnd' := List.nodup_cons.mp hnd
+          have hc0 : c0 < n := hlt c0 List.mem_cons_self
+          cases h0 : denote n ms name (θs.take (θs.length / 2)) qs' with
+          | none => rw [h0] at h; simp at h
+          | some D0 =>
+            cases h1 : denote n ms name (θs.drop (θs.length / 2)) qs' with
+            | none => rw [h0, h1] at h; simp at h
+            | some D1 =>
+              rw [h0, h1] at h; simp only at h; injection h with h; subst h
+              obtain ⟨u0, p0⟩ := ih name _ qs' D0 hlt' hnd'.2
+                (fun θ hθ => hreal θ (List.mem_of_mem_take hθ)) h0
+              obtain ⟨u1, p1⟩ := ih name _ qs' D1 hlt' hnd'.2
+                (fun θ hθ => hreal θ (List.mem_of_mem_drop hθ)) h1
+              refine ⟨isUnitary_forkSpec u0 u1 (p0 c0 hc0 hnd'.1) (p1 c0 hc0 hnd'.1), ?_⟩
+              intro c hc hnot
+              have hnot' : c ∉ qs' := fun hm => hnot (List.mem_cons_of_mem _ hm)
+              exact preserves_forkSpec u0.1 (p0 c hc hnot') (p1 c hc hnot')
 
 end
 end QV.C15
